@@ -277,16 +277,18 @@ func prop(c Case) pbt.Outcome {
 	}
 	out := pbt.Outcome{NonTrivial: minRecv >= 5, Labels: labels}
 	if fail != nil {
+		// a duplicate is explained only by D4 (re-read while own recv is high), a loss only by D5 (write
+		// completing on a stale received line)
+		excused := false
 		switch {
 		case d4 && (fail.Sig == "dup" || fail.Sig == "forward"):
 			fail.Sig = "D4:i2rw-rereads-while-own-recv-high"
+			excused = true
 		case d5 && fail.Sig == "lost":
 			fail.Sig = "D5:r2owa-completes-on-stale-recv"
-		case d4 || d5:
-			fail.Sig = "D4D5:" + fail.Sig
+			excused = true
 		}
-		if (d4 || d5) && !c.Strict {
-			// a recorded finding's precondition monitor fired before the breach: counted, search continues
+		if excused && !c.Strict {
 			out.Excluded = strings.SplitN(fail.Sig, ":", 2)[0]
 			out.Labels = append(out.Labels, "excluded-breach:"+fail.Sig)
 			return out
@@ -300,7 +302,7 @@ const ruleSim = "simulator world: one producer writing a strictly increasing cou
 
 var simEntry = pbt.Def("sim_history", ruleSim, genCase, prop)
 
-var Props = []*pbt.Entry{simEntry}
+var Props = []*pbt.Entry{simEntry, hdlEntry}
 
 func TestProps(t *testing.T)  { pbt.RunAll(t, "C04", Props) }
 func TestReplay(t *testing.T) { pbt.ReplayAll(t, "C04", Props) }
